@@ -19,11 +19,13 @@ from vmon.libutil import monitored
 
 LEVEL = "exploration"
 SHARDS = {"quick": 16, "thorough": 16}
-MUST = ["accessor.cursor_moved_first", "accessor.order0", "accessor.order1", "accessor.order2", "create.contract_evaluations", "accessor.checks", "reframe.checks", "reframe.socket", "reframe.file-chunked", "reframe.file-short-reads", "reframe.bytes-prefixed", "reframe.twice", "reframe.beyond_20MB", "reject.checks", "word1.values", "word2.values"]
+MUST = ["accessor.cursor_moved_first", "accessor.order0", "accessor.order1", "accessor.order2", "create.contract_evaluations", "accessor.checks", "reframe.checks", "reframe.socket", "reframe.file-chunked", "reframe.file-short-reads", "reframe.bytes-prefixed", "reframe.twice", "reframe.beyond_20MB", "reframe.train", "reframe.train/bytesio-written", "reframe.train/file-read-size-on-packet-border", "reframe.train/socket-two-packets-per-delivery", "reject.checks", "word1.values", "word2.values"]
 RULE = ("create_ccsds_packet is called on enumerated field values; a postcondition compares the bytes with the "
         "model's bit-string layout (3+1+1+11+2+14+16 bits, length field = len(data)-1) and the harness compares "
         "every accessor, re-frames the packet through ccsds_generator (bytes, BytesIO, and in rotation: chunked file reads, short reads, a "
-        "scripted socket delivering it in pieces, with 0/1/3/8 foreign prefix bytes skipped, the packet twice; one stream of 322 "
+        "scripted socket delivering it in pieces, with 0/1/3/8 foreign prefix bytes skipped, the packet twice; the packet inside a train of three constructed packets from a BytesIO filled by write() and framed twice, "
+        "a partly read BytesIO, a file read with a size that ends on a packet border, a socket delivery holding two whole packets, "
+        "show_progress=True; one stream of 322 "
         "maximum-size constructed packets > 20 MB) and checks rejection of "
         "out-of-range values. Enumerated completely: each field over its whole range with the others at "
         "{0,max,random}; all pairwise boundary combinations of the 7 fields; all 2^16 values of header words 1 "
@@ -154,6 +156,47 @@ def check_packet(ctx, vals, data, reframe=True):
                 ctx.violation(f"reframe/{kind}", f"re-framing the constructed packet from a {kind} source gave {len(out)} packets of lengths "
                               f"{[len(x) for x in out][:4]} / exc {s.exc!r}; expected {len(want_out)} x {len(raw)} bytes",
                               dict(wit, source=kind, options={a: b for a, b in kw.items()}, deliveries=sizes))
+        # ---- the constructed packet inside a train of constructed packets: every one is re-framed, whatever the source ----
+        prev = _state.get("prev_raw")
+        _state["prev_raw"] = raw
+        if prev is not None and len(prev) + len(raw) < 5000:
+            import contextlib
+            train = [prev, raw, prev]
+            tb = b"".join(train)
+            mode = n % 5
+            passes = 1
+            kw = {}
+            if mode == 0:
+                src = io.BytesIO()            # filled by write(): its position is at the end when it is handed over
+                src.write(tb)
+                kind, passes = "train/bytesio-written", 2     # ... and the same object is framed a second time
+            elif mode == 1:
+                src = sources_mod.RecordingFile(tb, "full")
+                kind, kw = "train/file-read-size-on-packet-border", {"buffer_read_size_bytes": len(prev) if n % 2 else len(prev) + len(raw)}
+            elif mode == 2:
+                src = sources_mod.ScriptedSocket([prev + raw, prev], closed_by_peer=True)     # one delivery holds two whole packets
+                kind, kw = "train/socket-two-packets-per-delivery", {"show_progress": bool(n % 2)}
+            elif mode == 3:
+                src, kind, kw = tb, "train/bytes", {"show_progress": True}
+            else:
+                src = io.BytesIO(tb)
+                src.read(len(prev) + 3)       # partly read by someone else before it is handed over
+                kind = "train/bytesio-partly-read"
+            for ps in range(passes):
+                out = []
+                with contextlib.redirect_stdout(io.StringIO()):
+                    g = packets.ccsds_generator(src, **kw)
+                    s = monitored(lambda: [out.append(x) for x in itertools.islice(g, 5)])
+                    g.close()
+                ctx.count("reframe.train")
+                ctx.count(f"reframe.{kind}")
+                if s.exc is not None or [bytes(x) for x in out] != train:
+                    ctx.violation(f"reframe/{kind}{'/second-pass' if ps else ''}", f"a train of 3 constructed packets ({[len(x) for x in train]} bytes) re-framed from {kind} "
+                                  f"(pass {ps + 1}) as {len(out)} packets of lengths {[len(x) for x in out][:5]} / exc {s.exc!r}",
+                                  dict(wit, source=kind, options=dict(kw), train_lengths=[len(x) for x in train]))
+                    break
+            if isinstance(src, sources_mod.ScriptedSocket):
+                src.close()
     return p
 
 
